@@ -457,3 +457,4 @@ M("C04", "C04-VAR", LH, "    return -0.5 * (np.log(2 * np.pi * var) + (x - mu) *
 M("C04", "C04-JIT", PYX, "            self.Binv[n, n] = self.s_ivar[n]\n", "            self.Binv[n, n] = self.ivar[n]\n", "kernel ignores the jitter in Binv (reverse of fix)")
 M("C04", "C04-KEPLER", PYX, "                            P, 1., e, om, M0, self.t0,\n                            anomaly_tol, anomaly_maxiter)", "                            P, 2., e, om, M0, self.t0,\n                            anomaly_tol, anomaly_maxiter)", "unit-amplitude column scaled by two in the test hook")
 M("C04", "C04-IO", SM, "                        tbl.meta[\"__t_ref_bmjd\"], format=\"mjd\", scale=\"tcb\"\n", "                        tbl.meta[\"__t_ref_bmjd\"], format=\"mjd\"\n", "FITS epoch read back without the TCB scale (seeded C04-B)")
+T("C19", SA, "    T = data.t.jd.max() - data.t.jd.min()\n", "    T = data._t_bmjd[-1] - data._t_bmjd[0]\n", "baseline from the ends of the time-sorted array")
